@@ -220,10 +220,12 @@ func runC05(ctx *Ctx) {
 	defer on.run(ctx)
 	tr := newCorr("textrender")
 	defer tr.run(ctx)
+	dd := newCorr("dedupe")
+	defer dd.run(ctx)
 	ctx.Rep.Rule = "pages whose every element may carry on*, id, class, style, data-* and unknown attributes, over all retained kinds (paragraphs, lists, images, figures+captions, videos, data tables, embeds) and with script/style children inside tables, captions and tweets; distinct by structure; non-trivial = at least one retained element carried a forbidden attribute in the source"
 	contentRun{id: "C05", n: [2]int{300, 12000}, url: pageURL,
 		weights: []W{{"para", 30}, {"heading", 4}, {"list", 8}, {"quote", 4}, {"datatable", 8}, {"figure", 8}, {"img", 8}, {"video", 6}, {"embed", 8}, {"script", 4}, {"divwrap", 6}, {"pre", 2}},
-		setup:   func(g *PageGen) { g.Decorate = true },
+		setup:   func(g *PageGen) { g.Decorate = true; g.DupAttrs = true },
 		corr: func(ctx *Ctx, x *distilled, replay interface{}) {
 			// model of StripAttributes vs the real one, on a private copy of the page body
 			d := parseDoc(x.Src)
@@ -231,6 +233,7 @@ func runC05(ctx *Ctx) {
 			if body == nil {
 				return
 			}
+			distiller.VerifRemoveDuplicateAttributes(body) // as the converter does with its clone
 			var sb strings.Builder
 			d.encodeTree(body, &sb)
 			distiller.VerifStripAttributes(body)
@@ -247,6 +250,7 @@ func runC05(ctx *Ctx) {
 			corrStrip.add(sb.String(), strings.Join(parts, "|"), replay)
 			addOutputNodesCase(on, x.Src, replay)
 			addRenderCases(tr, nil, ctx.Rep, x.Src, pageURL, replay, 6)
+			addDedupeCase(dd, x.Src, replay)
 		},
 		extra: func(ctx *Ctx, i int, r *Rng) []string {
 			g := newPageGen(r)
@@ -275,15 +279,18 @@ func runC06(ctx *Ctx) {
 	defer ab.run(ctx)
 	tr := newCorr("textrender")
 	defer tr.run(ctx)
+	dd := newCorr("dedupe")
+	defer dd.run(ctx)
 	for k, us := range urls {
 		u, _ := nurl.Parse(us)
 		cr := contentRun{id: "C06", n: [2]int{120, 4000}, url: u,
 			corr: func(ctx *Ctx, x *distilled, replay interface{}) {
 				addAbsURLCase(ab, x.Src, u, replay)
 				addRenderCases(tr, nil, ctx.Rep, x.Src, u, replay, 6)
+				addDedupeCase(dd, x.Src, replay)
 			},
 			weights: []W{{"para", 35}, {"list", 6}, {"datatable", 8}, {"figure", 10}, {"img", 10}, {"video", 8}, {"quote", 4}, {"divwrap", 5}, {"links", 4}},
-			setup:   func(g *PageGen) { g.RelURLs = true },
+			setup:   func(g *PageGen) { g.RelURLs = true; g.DupAttrs = true },
 			oracle: func(ctx *Ctx, x *distilled, replay interface{}) bool {
 				n := oracleC06(ctx.Rep, x, replay)
 				ctx.Rep.histN("retained-relative-urls", n)
